@@ -232,7 +232,12 @@ def save_load(p, res, where, name="c16.json", into=None):
     except Exception as e:  # noqa: BLE001
         res.fail("C16.write_raises", "%s: write_simple_json raised %s: %s" % (where, type(e).__name__, e), sig=type(e).__name__)
         return None
-    j1 = json.load(open(path))
+    try:
+        with open(path) as f:
+            j1 = json.load(f)
+    except ValueError as e:
+        res.fail("C16.file_not_json", "%s: the file written by write_simple_json is not valid JSON: %s" % (where, e), sig="first")
+        return None
     p2 = S.BaseProject()
     if into is not None:
         p2 = into  # read into a project object that has already been used
@@ -247,7 +252,12 @@ def save_load(p, res, where, name="c16.json", into=None):
     except Exception as e:  # noqa: BLE001
         res.fail("C16.rewrite_raises", "%s: writing the restored project raised %s: %s" % (where, type(e).__name__, e), sig=type(e).__name__)
         return p2
-    j2 = json.load(open(path2))
+    try:
+        with open(path2) as f:
+            j2 = json.load(f)
+    except ValueError as e:
+        res.fail("C16.file_not_json", "%s: the file written from the restored project is not valid JSON: %s" % (where, e), sig="second")
+        return p2
     if j1 != j2:
         diffs = S.diff_dumps(j1, j2)
         res.fail("C16.roundtrip", "%s: JSON(file) != JSON(write(read(file))): %s" % (where, "; ".join(diffs[:3])), sig=diffs[0].split(":")[0].split("/")[-1].split("[")[0] if diffs else "")
